@@ -3,7 +3,7 @@
    element is the outcome tag (0 Ok / 1 Err code / 2 Panic code).  The field order of every
    [*_outs] function is the order in which harness/src/trk.rs lists the implementation's fields. *)
 From Coq Require Import ZArith List Bool Floats.
-From AltModel Require Import Num SpeedPoints PathGeom.
+From AltModel Require Import Num SpeedPoints PathGeom TrainCfg.
 Import ListNotations.
 
 Notation SLf := (SpeedLimit (F:=float)).
@@ -49,3 +49,15 @@ Definition x_insert_speed (pts : list (float * float)) (a b v : float) : list ou
 Definition x_speed_le (net : list Linkf) (tp : TPf) (paths : list (list Z)) (impl : list (float * float))
   : list out :=
   res_outs (extend_many net (new_path tp) paths) (fun p => [OB (profile_le impl (p_speed_points p))]).
+
+(* TrainConfig::make_train_params: all nine fields of the resulting TrainParams *)
+Definition x_make_train_params (rvs : list (RV (F:=float))) (ttype : Z) (tm tl : option float) : list out :=
+  res_outs (make_train_params rvs ttype tm tl)
+    (fun t => [OF (tp_length t); OF (tp_speed_max t); OF (tp_mass_static t); OF (tp_mass_per_brake t);
+               OZ (tp_axle_count t); OZ (tp_train_type t);
+               OF (tp_curve_coeff_0 t); OF (tp_curve_coeff_1 t); OF (tp_curve_coeff_2 t)]).
+(* the same configuration, then the path: is the implementation's stored profile below the model's? *)
+Definition x_speed_le_cfg (net : list Linkf) (rvs : list (RV (F:=float))) (ttype : Z) (tm tl : option float)
+    (paths : list (list Z)) (impl : list (float * float)) : list out :=
+  res_outs (bind (make_train_params rvs ttype tm tl) (fun tp => extend_many net (new_path tp) paths))
+           (fun p => [OB (profile_le impl (p_speed_points p))]).
